@@ -174,3 +174,35 @@ Proof.
         + specialize (HT k Hk). subst k. simpl in HT. lia. }
     subst. eapply prune_oldest_first; eauto.
 Qed.
+
+(** a rotation never touches an entry that is not one of the appender's log files: same name, bytes, stamp *)
+Lemma refresh_keeps_foreign c s t f :
+  DirOK (dir s) (tick s) -> In f (dir s) -> matches c (fname f) = false -> In f (dir (refresh c s t)).
+Proof.
+  intros [ND _] Hf Hnm. unfold refresh. destruct (max_files c) as [m|].
+  - destruct (prune c m (dir s)) as [d1 rm] eqn:Hp.
+    assert (Hd1 : d1 = fst (prune c m (dir s))) by (rewrite Hp; reflexivity).
+    destruct (create (join_date c t) d1 (tick s)) as [d2 tk] eqn:Hc.
+    assert (Hd2 : d2 = fst (create (join_date c t) d1 (tick s))) by (rewrite Hc; reflexivity).
+    simpl. subst d2. apply create_keeps. subst d1. apply prune_keeps_foreign; auto.
+  - destruct (create (join_date c t) (dir s) (tick s)) as [d2 tk] eqn:Hc.
+    assert (Hd2 : d2 = fst (create (join_date c t) (dir s) (tick s))) by (rewrite Hc; reflexivity).
+    simpl. subst d2. apply create_keeps. exact Hf.
+Qed.
+
+(** what a rotation removes, exactly: the [len - (max-1)] oldest of the appender's files when there are at least
+    [max] of them, nothing otherwise - and the new period's file is the only thing it may add *)
+Lemma refresh_exact c s t m : max_files c = Some m -> (1 <= m)%nat -> DirOK (dir s) (tick s) ->
+  let len := count_logs c (dir s) in
+  let k := if (len <? m)%nat then 0%nat else (len - (m - 1))%nat in
+  Permutation (snd (prune c m (dir s))) (firstn k (sort_by_created (filter (fun f => matches c (fname f)) (dir s)))) /\
+  length (snd (prune c m (dir s))) = k /\
+  grave (refresh c s t) = grave s ++ snd (prune c m (dir s)) /\
+  dir (refresh c s t) = fst (create (join_date c t) (fst (prune c m (dir s))) (tick s)) /\
+  count_logs c (fst (prune c m (dir s))) = (len - k)%nat.
+Proof.
+  intros Hm H1 [ND _]. destruct (prune_exact c m (dir s) H1 ND) as [P1 [P2 [P3 _]]].
+  split; [exact P1|split; [exact P2|]]. unfold refresh. rewrite Hm.
+  destruct (prune c m (dir s)) as [d1 rm]. destruct (create (join_date c t) d1 (tick s)) as [d2 tk] eqn:Hc. simpl.
+  split; [reflexivity|split; [rewrite Hc; reflexivity|exact P3]].
+Qed.
